@@ -8,7 +8,7 @@ git -C /repo worktree add --detach $WT HEAD >/dev/null 2>&1
 if ! git -C $WT apply --3way /verif/seeded/$SID/patch.diff >/dev/null 2>&1; then echo "$SID: patch does not apply"; git -C /repo worktree remove --force $WT; exit 3; fi
 for PID in "$@"; do
   for SEED in ${SEEDS:-0 1}; do
-    RTC_REPO=$WT VERIF_OUT=$OUT VERIF_SEED=$SEED timeout 3000 /verif/check $PID --tier quick > $OUT/$PID.$SEED.log 2>&1
+    RTC_REPO=$WT VERIF_OUT=$OUT VERIF_SEED=$SEED timeout 3000 ${VERIF_ROOT:-/verif}/check $PID --tier quick > $OUT/$PID.$SEED.log 2>&1
     echo "$SID $PID seed=$SEED exit=$? :: $(grep VIOLATION $OUT/$PID.$SEED.log | head -1) :: $(tail -1 $OUT/$PID.$SEED.log | cut -c1-200)"
   done
 done
